@@ -13,6 +13,7 @@ claimed = {
          "(dispatch pointer, kernel-argument pointer, ceil-divided work-group counts, work-group ids) at the same offsets and give each of the 64 lanes the row-major coordinates of its flat id (separately in v0..v2, or packed into v0 for V5 code objects). "
          "The LDS unit runs a wavefront's instruction on the shared ALU only after binding the ALU to that wavefront's own work-group LDS, and the emulator's FLAT handlers access memory only for active lanes with the lane's own address and data. "
          "The write-back of a returned vector load gives each recorded lane what the emulator's FLAT load handlers load from the same bytes (byte zero-/sign-extended, 16 bits zero-extended, or the register-count words), and a returned scalar load writes the response data to the recorded destination registers. "
+         "The three places that decide the FLAT addressing mode agree: the decoder gives the address operand one register exactly when the SADDR field selects a scalar base (per architecture; decodeFLAT), which is the test of the timing coalescer, and the two emulator ALUs test the SADDR field with the same per-architecture rule. "
          "The execution units share the emulator's ALU by construction (cu.Builder). Not under contract: the lane bookkeeping of the coalescer (which bytes belong to which lane), cache flush before copies, and the whole-program equivalence itself."),
    note=(TB + "The emulator-side address formula is transcribed into the contract, not mechanically extracted (the emulator's state interface is modelled differently under C03). Whole-program equivalence of the two modes needs program-level reasoning outside this technique. "
          "Register initialisation: mathematical integers with overflow obligations; work-group sizes <= 1024 per dimension, flat ids <= 1024, grid sizes <= 0xFFFF0000 are preconditions; the packed V5 word is compared as the same uninterpreted bit expression on both sides. "
@@ -53,8 +54,9 @@ claimed = {
  "C19": dict(
    text=("Step contracts of the page migration controller: it stays busy until the control port has accepted the completion response (sendMigrationCompleteRspToCtrlPort, processWriteDoneRspFromMemCtrl: "
          "the busy flag is untouched while write acknowledgements are counted, the completion is built exactly on the last one), and every migrated chunk is written to the memory controller that owns that chunk's own address "
-         "(site obligations in processDataPullRsp); the driver hands a migration request to the GPU port only while no page is being migrated (sendMigrationReqToCP). Request splitting arithmetic and the CP forwarding are not yet under contract."),
-   note=(TB + "akita ports, the simulation clock and the address-to-port mapper (assumed a pure function of the address) are external."),
+         "(site obligations in processDataPullRsp); the driver hands a migration request to the GPU port only while no page is being migrated (sendMigrationReqToCP). A migration request is split into exactly pageSize/T pulls (T the controller's transfer size), pull i reading [from + i*T, from + (i+1)*T) with its data destined for to + i*T, and as many responses are awaited as pulls were made "
+         "(processPageMigrationReqFromCtrlPort, mathematical integers with overflow obligations). The CP forwarding is not yet under contract."),
+   note=(TB + "akita ports, the simulation clock and the address-to-port mapper (assumed a pure function of the address) are external. The split assumes the page size is a multiple of the transfer size (otherwise the code drops the tail of the page: a precondition, not checked at run time), transfer size <= 2^20, page size <= 2^30, addresses <= 2^48."),
    design="5 (C19)", technique="deductive verification: WP-style VC generation over go/ssa + SMT (pre/postconditions and call-site obligations on the step functions)"),
  "C13": dict(
    text=("The header and descriptor parsers (isV2V3Header, parseV2V3Header, parseV5KernelDescriptor, newKernelCodeObjectFromEntireTextSection) are verified against the "
@@ -70,7 +72,8 @@ claimed = {
          "each once, with current sizes equal to the clipped sizes (>= 1) and nil exactly when the cursor has left the grid; countWG without a filter equals ceil(X/wx)*ceil(Y/wy)*ceil(Z/wz); "
          "Driver.distributeWGToGPUs returns a non-decreasing range table starting at 0 and ending at or beyond the number of work-groups, and the per-GPU filter closure accepts exactly "
          "the row-major flattened ids of its range. Lane-id initialisation is under contract in both modes (emu.ComputeUnit.initWfRegs, cu.WfDispatcherImpl.initRegisters): all 64 lanes of a wavefront are visited and lane l receives the coordinates (x, y, z) with flat id = (z*SY + y)*SX + x, 0 <= x < SX, 0 <= y < SY; "
-         "the work-group counts written to the scalar registers are the ceiling quotients. Not yet under contract: the filtered count/enumeration, spawnWorkItems/formWavefronts (functional)."),
+         "the work-group counts written to the scalar registers are the ceiling quotients. With a work-group filter, countWG is a complete scan: every coordinate of the grid is offered to the filter exactly once, the count goes up by one exactly for the accepted ones and stays within the grid size "
+         "(that it equals the number NextWG later produces additionally needs the filter to answer the same both times; the driver's filter is a pure range test under contract). Not yet under contract: NextWG/Skip with a filter, spawnWorkItems/formWavefronts (functional)."),
    note=(TB + "Assumed: fewer than 2^31 work-groups per dispatch, CU counts <= 65536, at most 4096 unified GPUs; NewWorkGroup and formWavefronts enter NextWG through trusted frame-only contracts; "
          "the explicit guard 'not all wg allocated' is kept as a run-time check (its unreachability needs a prefix-sum argument). Suspect not yet decided: formWavefronts for partial work-groups whose row pitch does not divide 64 (DESIGN.md). The register-initialisation obligations are shared with C02 (same findings: V5 packing repaired, two SGPR-layout findings recorded)."),
    design="5 (C08)", technique="deductive verification: WP-style VC generation over go/ssa + SMT (integer mode with overflow obligations, loop invariants)"),
@@ -89,8 +92,9 @@ claimed = {
    text=("Under contract: the allocation masks of a compute unit (resourceMaskImpl.nextRegion/setStatus/convertStatus/statusCount: a returned region lies inside the mask and has the requested status, updates touch exactly the named units) and unitsOccupy (round-up); "
          "FreeResourcesForWG releases, for every wavefront location, exactly the rounded-up LDS/SGPR/VGPR unit counts at the recorded offsets with status Free and forgets the work-group (site obligations); "
          "DispatcherImpl.kernelCompleted holds exactly when no work-group is waiting to be sent, none is left to place and every dispatched one has completed; partitionAlgorithm.Next books a placed work-group on the partition it was taken from and counts it once. "
-         "ReserveResourceForWG (the reserve-then-commit search), the other placement algorithms and the message handlers are not yet under contract."),
-   note=(TB + "The masks behind their interface, the CU pool and the algorithm interface are external in the callers (extern declarations); first-fit completeness of nextRegion is not stated; message interleavings are outside the technique."),
+         "The three searches of ReserveResourceForWG (scalar registers, LDS, wavefront-to-SIMD matching) ask the masks for a free region of the rounded-up unit count, mark exactly that region to-be-reserved before asking again, place a wavefront only on a SIMD with a free slot beyond those already used in this call, and record byte offsets that the release path converts back to the same unit offsets. "
+         "The commit/rollback step (reserveResources/clearTempReservation), the other placement algorithms and the message handlers are not yet under contract."),
+   note=(TB + "The masks behind their interface, the CU pool and the algorithm interface are external in the callers (extern declarations); first-fit completeness of nextRegion is not stated; message interleavings are outside the technique. The reservation contracts fix the granularities to the pool builder's values (16 scalar registers, 4 vector registers, 256 LDS bytes per unit): the scalar byte offset is computed with a hard-coded 16, so the reserve and release paths agree only for that value; region offsets returned by the masks are assumed below 2^28 (assume-at, from nextRegion's own contract)."),
    design="5 (C09)", technique="deductive verification: WP-style VC generation over go/ssa + SMT (array loop invariants, call-site obligations)"),
 
  "C10": dict(
